@@ -333,3 +333,100 @@ Proof.
   apply andb_prop in H. destruct H as [H1 H2]. apply Qleb_true in H1, H2.
   exists t0, t1, rest, u1, u0, rest'. auto.
 Qed.
+
+(* ================= the case predicate ================= *)
+(* [G E A P]: the meaning of a group with exact comparison E, admissible-set comparison A and
+   specification-level reading P of E;  [Lw amb P]: the meaning of a law P on observed values that a
+   borderline group (amb) excuses.  Code 0: G _ _ P = P, Lw _ P = P.
+   Code 1: G E A P = P \/ (E = false /\ A = true), Lw amb P = P \/ amb = true. *)
+Definition linear_some_gen (G : bool -> bool -> Prop -> Prop) (Lw : bool -> Prop -> Prop) (c : sccase) (eb : Z) : Prop :=
+  let ob := sc_ob c in let base := sc_base c in let mn := sc_mn c in let mx := sc_mx c in
+  let o := sc_o c in let no := so_no ob in let tolv := lc_tolv c in
+  exists ao bo, so_nmin ob = XFin ao /\ so_nmax ob = XFin bo /\
+  let E20 := forallb (lin_level_exact base eb mn mx tolv) (so_levels ob) in
+  let E30 := lin_nice_E tolv no base eb mn mx (so_nst ob) (XFin ao) (XFin bo) in
+  let E36 := lin_ticks_E tolv no base eb ao bo (so_st3 ob) (so_major3 ob) None in
+  let E37 := lin_nice_E tolv no base eb ao bo (so_nst2 ob) (so_nmin2 ob) (so_nmax2 ob) in
+  let bl := negb E30 || negb E36 || negb E37 in
+  let found := exists l, lin_nice_level base eb no (fst (lin_start mn mx)) (snd (lin_start mn mx)) l in
+  (* 10: Ticks(o) *)
+  G (lin_ticks_E tolv o base eb mn mx (so_st ob) (so_major ob) (Some (so_minor ob)))
+    (lin_ticks_A tolv o base eb mn mx (so_st ob) (so_major ob) (Some (so_minor ob)))
+    (lin_ticks_spec tolv base eb o mn mx (so_st ob) (so_major ob) (Some (so_minor ob))) /\
+  (* 20: CountTicks(l), TicksAtLevel(l) for every recorded level *)
+  G E20 (forallb (fun lv => lin_level_exact base eb mn mx tolv lv || lin_level_adm base eb mn mx tolv lv) (so_levels ob))
+    (mn <= mx -> Forall (lin_level_spec tolv base eb mn mx) (so_levels ob)) /\
+  (* 21: the observed counts are non-increasing along ascending levels *)
+  Lw (negb E20) (forall l1 a b l2, so_levels ob = l1 ++ a :: b :: l2 -> (lv_level a <= lv_level b)%Z -> (lv_count b <= lv_count a)%Z) /\
+  (* 30: Nice(o') *)
+  G E30 (lin_nice_A tolv no base eb mn mx (so_nst ob) (XFin ao) (XFin bo))
+    (lin_nice_spec tolv base eb no mn mx (so_nst ob) (XFin ao) (XFin bo)) /\
+  (* 35: the observed new ends do not shrink the (ordered) domain *)
+  (ao <= fst (lin_order mn mx) /\ snd (lin_order mn mx) <= bo) /\
+  (* 36: Ticks(o') after Nice, on the observed new domain *)
+  G E36 (lin_ticks_A tolv no base eb ao bo (so_st3 ob) (so_major3 ob) None)
+    (lin_ticks_spec tolv base eb no ao bo (so_st3 ob) (so_major3 ob) None) /\
+  (* 37: Nice(o') once more, on the observed new domain *)
+  G E37 (lin_nice_A tolv no base eb ao bo (so_nst2 ob) (so_nmin2 ob) (so_nmax2 ob))
+    (lin_nice_spec tolv base eb no ao bo (so_nst2 ob) (so_nmin2 ob) (so_nmax2 ob)) /\
+  (* 40: idempotent for Max >= 3 *)
+  Lw bl ((3 <= o_max no)%Z -> so_nst2 ob = 0%Z /\ exists a2 b2, so_nmin2 ob = XFin a2 /\ so_nmax2 ob = XFin b2 /\
+           Qabs (a2 - ao) <= tolv ao /\ Qabs (b2 - bo) <= tolv bo) /\
+  (* 41: first and last major tick after Nice are the new ends (Max >= 3, a level was found) *)
+  Lw bl ((3 <= o_max no)%Z -> found -> exists f rest t0 tl, so_major3 ob = f :: rest /\ f = XFin t0 /\ last (so_major3 ob) f = XFin tl /\
+           Qabs (t0 - ao) <= tolv ao /\ Qabs (tl - bo) <= tolv bo) /\
+  (* 43: Map(new Min) = 0, Map(new Max) = 1 *)
+  (~ ao == bo -> exists p q, so_map0 ob = XFin p /\ so_map1 ob = XFin q /\ Qabs p <= e12 /\ Qabs (q - 1) <= e12) /\
+  (* 45: each end moved by at most one observed major tick spacing (Max >= 3, a level was found) *)
+  Lw bl ((3 <= o_max no)%Z -> found -> exists t0 t1 rest u1 u0 rest',
+           so_major3 ob = XFin t0 :: XFin t1 :: rest /\ rev (so_major3 ob) = XFin u1 :: XFin u0 :: rest' /\
+           fst (lin_start mn mx) - ao <= t1 - t0 + tolv ao /\ bo - snd (lin_start mn mx) <= u1 - u0 + tolv bo).
+
+Definition linear_case_gen (G : bool -> bool -> Prop -> Prop) (Lw : bool -> Prop -> Prop) (c : sccase) : Prop :=
+  match lin_ebase (sc_base c) with None => lin_badbase_ok c | Some eb => linear_some_gen G Lw c eb end.
+Definition G_exact (E A : bool) (P : Prop) : Prop := P.
+Definition L_exact (amb : bool) (P : Prop) : Prop := P.
+Definition G_border (E A : bool) (P : Prop) : Prop := P \/ (E = false /\ A = true).
+Definition L_border (amb : bool) (P : Prop) : Prop := P \/ amb = true.
+(* verdict code 0 / verdict code 1 *)
+Definition linear_case_ok (c : sccase) : Prop := linear_case_gen G_exact L_exact c.
+Definition linear_case_borderline (c : sccase) : Prop := linear_case_gen G_border L_border c.
+
+Lemma lin_groups_case (G : bool -> bool -> Prop -> Prop) (Lw : bool -> Prop -> Prop) cd c eb ao bo :
+  (forall E A (P : Prop), gok cd E A -> (E = true -> P) -> G E A P) ->
+  (forall H amb (P : Prop), lok cd H amb -> (H = true -> P) -> Lw amb P) ->
+  lin_ebase (sc_base c) = Some eb -> lin_groups cd c eb ao bo -> linear_some_gen G Lw c eb.
+Proof.
+  intros HG HL He [t1 t2 t3 t4 t5 t6 t7 Fin K10 K20 K21 K30 K35 K36 K37 b1 b2 K40 K41 K43 K45]. subst t1 t2 t3 t4 t5 t6 t7 b1 b2.
+  unfold linear_some_gen. cbv zeta. exists ao, bo. split; [exact (proj1 Fin)|]. split; [exact (proj2 Fin)|].
+  apply andb_prop in K35. destruct K35 as [K35a K35b]. apply Qleb_true in K35a, K35b.
+  repeat match goal with |- _ /\ _ => split end.
+  - eapply HG; [exact K10|]. now apply lin_ticks_E_sound.
+  - eapply HG; [exact K20|]. intros E Ho. apply Forall_forall. intros lv Hlv.
+    apply (lin_level_exact_sound _ _ _ _ _ _ He Ho). exact (proj1 (forallb_forall _ _) E lv Hlv).
+  - eapply HL; [exact K21|]. intro E. now apply counts_noninc_sound.
+  - eapply HG; [exact K30|]. now apply lin_nice_E_sound.
+  - exact K35a.
+  - exact K35b.
+  - eapply HG; [exact K36|]. now apply lin_ticks_E_sound.
+  - eapply HG; [exact K37|]. now apply lin_nice_E_sound.
+  - eapply HL; [exact K40|]. intros E Hm. now apply (law40_sound _ _ _ _ _ _ _ E).
+  - eapply HL; [exact K41|]. intros E Hm Hf. apply (law41_sound _ _ _ _ _ _ E Hm). now apply lin_found_iff.
+  - intro Hn. now apply (law43_sound _ _ _ _ K43).
+  - eapply HL; [exact K45|]. intros E Hm Hf. apply (lin_law45_sound _ _ _ _ _ _ _ _ E Hm). now apply lin_found_iff.
+Qed.
+
+Theorem judge_linear_sound c cd t p d : judge_linear c = verdict cd t p d -> cd = 0%Z \/ cd = 1%Z ->
+  (cd = 0%Z -> linear_case_ok c) /\ (cd = 1%Z -> linear_case_borderline c).
+Proof.
+  intros H Hc. unfold linear_case_ok, linear_case_borderline, linear_case_gen.
+  destruct (lin_ebase (sc_base c)) as [eb|] eqn:He.
+  - destruct (judge_linear_groups c cd t p d eb H Hc He) as (ao & bo & Gs). split; intros ->.
+    + apply (lin_groups_case G_exact L_exact 0%Z c eb ao bo); [| |exact He|exact Gs].
+      * intros E A P K HP. apply HP. now apply gok_code0 in K.
+      * intros Hh amb P K HP. apply HP. now apply lok_code0 in K.
+    + apply (lin_groups_case G_border L_border 1%Z c eb ao bo); [| |exact He|exact Gs].
+      * intros E A P [K|(_ & K1 & K2)] HP; [left; auto | right; auto].
+      * intros Hh amb P [K|(_ & K1 & K2)] HP; [left; auto | right; auto].
+  - pose proof (judge_linear_badbase c cd t p d H Hc He). split; intros _; assumption.
+Qed.
